@@ -51,20 +51,22 @@ Definition same_set (a b : list N) : bool :=
   Nat.eqb (length a) (length b) && forallb (fun x => memN x b) a && forallb (fun x => memN x a) b.
 
 (* 0 = agrees; otherwise 10 * step + (1 = the run inside caching contexts differs, 2 = the run without) *)
-Fixpoint rfirst_bad (chain_fix : bool) (sc su : rstate) (i : N) (l : list (rop * list N * list N)) : N :=
+Fixpoint rfirst_bad (fx : fixes) (sc su : rstate) (i : N) (l : list (rop * list N * list N)) : N :=
   match l with
   | [] => 0
   | (o, oc, ou) :: rest =>
-    let '(sc', ac) := rstep chain_fix true sc o in
-    let '(su', au) := rstep chain_fix false su o in
+    let '(sc', ac) := rstep fx true sc o in
+    let '(su', au) := rstep fx false su o in
     if negb (same_set ac oc) then 10 * i + 1
     else if negb (same_set au ou) then 10 * i + 2
-    else rfirst_bad chain_fix sc' su' (N.succ i) rest
+    else rfirst_bad fx sc' su' (N.succ i) rest
   end.
 
-Definition rinit (ch : list (N * list N)) : rstate := (mkTables ch [] [], no_caches).
-Definition chk_reg_history (c : list (N * list N) * list (rop * list N * list N)) : bool :=
-  let '(ch, l) := c in rfirst_bad true (rinit ch) (rinit ch) 1 l =? 0.
-(* against the code BEFORE the repair d43ed5b (used only to describe a regression) *)
-Definition chk_reg_history_unrepaired (c : list (N * list N) * list (rop * list N * list N)) : bool :=
-  let '(ch, l) := c in rfirst_bad false (rinit ch) (rinit ch) 1 l =? 0.
+(* every history starts on an empty registry: the fixture's registrations are its first operations *)
+Definition rinit : rstate := (empty_tables, no_caches).
+Definition chk_reg_history (l : list (rop * list N * list N)) : bool := rfirst_bad as_coded rinit rinit 1 l =? 0.
+(* against the code BEFORE the repairs d43ed5b / 65fc362 (used only to describe a regression) *)
+Definition chk_reg_history_no_chain_fix (l : list (rop * list N * list N)) : bool :=
+  rfirst_bad (mkFixes false true) rinit rinit 1 l =? 0.
+Definition chk_reg_history_no_rm_fix (l : list (rop * list N * list N)) : bool :=
+  rfirst_bad (mkFixes true false) rinit rinit 1 l =? 0.
